@@ -376,6 +376,8 @@ def run_program(rec, rng, key):
     got = [norm(e) for e in ns["LOG"]]
     exp = [tuple(e) for e in g.expected]
     rec.case(src, nontrivial=g.maxdepth >= 2)
+    if len(g.lines) < 200:
+        rec.sample({"rngkey": key, "program_head": "\n".join(g.lines)[:1800], "expected_log_head": [list(map(str, e)) for e in exp[:6]]})
     rec.count("programs")
     rec.count("observations", len(got))
     if g.maxdepth >= 3:
@@ -435,8 +437,6 @@ def run_shard(rec, seed, shard, tier):
     for k in range(CASES[tier]):
         key = f"{seed}/C05/{shard['i']}/{k}"
         run_program(rec, random.Random(key), key)
-        if k == 0 and shard["i"] == 0:
-            rec.sample({"rngkey": key, "note": "program text is in the violation case / regenerate with --replay"})
 
 
 def replay(rec, case):
